@@ -53,6 +53,45 @@ def baseline(sc, which):
     return b
 
 
+def _op_view(res, i):
+    """What operation ``i`` of an execution looked like from outside, independent of instance tags and
+    of the (unspecified) order inside a group."""
+    import json
+
+    out = next((o for o in res["outs"] if o["n"] == i), None)
+    if out is None:
+        return None
+    exc = out.get("exc")
+    if exc is not None:
+        exc = {k: (v[:1] + v[2:] if k == "sim_id" else v) for k, v in exc.items()}
+    r = out.get("res")
+    if isinstance(r, list):
+        r = sorted(json.dumps(x, sort_keys=True, default=str) for x in r)
+    obs = out.get("obs") or {}
+    cbs = sorted((x["c"], x.get("g") or "") for x in res["trace"] if x["k"] == "cb+" and x["e"] == i)
+    return {"exc": exc, "res": json.dumps(r, sort_keys=True, default=str), "cs": obs.get("cs", obs.get("cs_err")),
+            "field": json.dumps(obs.get("field"), sort_keys=True, default=str),
+            "allowed": sorted(obs.get("allowed") or []), "cbs": cbs}
+
+
+def differential(sc, res, bres, which):
+    """Copy run vs. the same history on one never-copied machine: every operation addressed to
+    ``which`` after it was born must look the same in both (no reference involved)."""
+    born = next(i for i, o in enumerate(sc["ops"]) if o["op"] == "clone" and o["as"] == which)
+    for i, op in enumerate(sc["ops"]):
+        if i <= born or op.get("inst") != which:
+            continue
+        a, b = _op_view(res, i), _op_view(bres, i)
+        if a is None or b is None:
+            continue
+        for k in ("exc", "cs", "field", "res", "cbs", "allowed"):
+            if a[k] != b[k]:
+                return {"clause": "C17.equivalent", "kind": "differs_from_uncopied_run", "op": i,
+                        "detail": {"on": which, "what": k, "copy": a[k], "uncopied": b[k],
+                                   "how": sc["ops"][born]["how"]}}
+    return None
+
+
 @register
 class C17(Campaign):
     pid = "C17"
@@ -76,7 +115,9 @@ class C17(Campaign):
             "operation addressed to the other. Non-trivial = both copies received >=1 event after the snapshot; "
             "distinct = distinct trace digests.")
     assumptions = [
-        "the two no-copy baselines must agree with the reference, otherwise the run is not judged",
+        "the no-copy baselines must agree with the reference; when one does not (another property's business) "
+        "the copy is compared operation by operation with that never-copied run instead (state, exception, "
+        "result, callback multiset, allowed events)",
         "callbacks are referenced by name (the library re-attaches listeners of a clone by name only)",
     ]
 
@@ -143,6 +184,7 @@ class C17(Campaign):
 
     def evaluate(self, sc):
         out = {"violations": [], "unarmed": [], "mstats": {}, "res": None, "evals": 0, "c17": {}}
+        off = {}
         for which in sorted({o["inst"] for o in sc["ops"] if o.get("inst")}):
             b = baseline(sc, which)
             bres = self.execute(b)
@@ -153,8 +195,24 @@ class C17(Campaign):
             out["mstats"] = bm.stats
             if bf:
                 out["unarmed"].append("baseline:" + bf[0]["kind"])
-                out["c17"]["probe.baseline_not_in_step_with_reference(skipped)"] = 1
+                off[which] = (bres, getattr(bm.ref, "ambiguous", False))
+        if off:
+            # the never-copied machine itself is not in step with the reference (another property's
+            # business): the copies are then compared with the never-copied runs directly
+            out["c17"]["probe.baseline_not_in_step_with_reference(differential comparison)"] = 1
+            if any(amb for _b, amb in off.values()):
                 return out
+            res = self.execute(sc)
+            out["evals"] += 1
+            out["res"] = res
+            for which in sorted(off):
+                if which == "A":
+                    continue
+                v = differential(sc, res, off[which][0], which)
+                if v:
+                    out["violations"].append(v)
+                    break
+            return out
         res = self.execute(sc)
         m = match.Matcher(sc, res)
         f = m.run(stop_at_first=False)
